@@ -1,4 +1,5 @@
 import copy
+import typing
 
 from .tlb import TlbScheme, TlbError
 from ..boc.slice import Slice
@@ -409,9 +410,13 @@ class VmSaveList(TlbScheme):
     _ cregs:(HashmapE 4 VmStackValue) = VmSaveList;
     """
     @classmethod
-    def serialize(cls, value: "HashMap") -> Cell:
+    def serialize(cls, value: typing.Union["HashMap", dict, Cell, None]) -> Cell:
+        if isinstance(value, dict):  # {register: value}, the form deserialize returns
+            value = HashMap(4, value_serializer=lambda src, dest: dest.store_cell(VmStackValue.serialize(src)), map_=dict(value))
+        if isinstance(value, HashMap):
+            value = value.serialize()
         return Builder().store_dict(value).end_cell()
 
     @classmethod
-    def deserialize(cls, cell_slice: Slice) -> "HashMap":
-        return cell_slice.load_dict(4)
+    def deserialize(cls, cell_slice: Slice) -> typing.Optional[dict]:
+        return cell_slice.load_dict(4, value_deserializer=VmStackValue.deserialize)
